@@ -160,7 +160,17 @@ def make_queries(region, q):
     return regions.PixCoord(x, y)
 
 
+def driver_extra(tier, seed, rundir):
+    """thorough tier: the repository's own test-suite as an additional, organically shaped workload for the same monitor."""
+    if tier != 'thorough':
+        return None
+    from vmon import suite
+    return suite.run_suite_lane(ID, 'contains')
+
+
 def run_case(case, obs):
+    if case['lane'].startswith('suite:'):
+        return monitors.replay_suite_case(case, obs)
     region = S.build(case['region'])
     pc = make_queries(region, case['q'])
     res = region.contains(pc)          # judged by the installed monitor
